@@ -9,13 +9,19 @@ variable {fl : Bool}
 open HipVerif.Vecs (IV TV Outcome Val Reason PanicClass DrainEnd Src)
 open HipVerif.Spec.Vec (Bnd Side)
 
-def sideOf : IStep → Side
-  | .front => .front
-  | .back => .back
+/-- the list-level pulls that a slot-level pull stands for: `nth(k)` = `k + 1` times `next`
+(the skipped items are dropped instead of handed out, which the list model does not tell apart) -/
+def sidesOf : IStep → List Side
+  | .front => [.front]
+  | .back => [.back]
+  | .nth k => List.replicate (k + 1) .front
+  | .nthBack k => List.replicate (k + 1) .back
 
+/-- every way of using up the iterator (`drop`, `last`, `count`, `fold`, `rfold`) ends with its
+`Drop`; only `mem::forget` does not -/
 def finOf : IFin → DrainEnd
-  | .drop => .drop
   | .leak => .leak
+  | _ => .drop
 
 /-- the list-level InlineVec that a slot-level state stands for -/
 def absIV (s : St) : IV Nat := ⟨s.v.cap, absL s⟩
@@ -56,8 +62,8 @@ def toIVOp (s : St) : Op → Option (Vecs.Op Nat)
   | .clone => some .clone
   | .append n => some (.append (List.range' s.mem.next n))
   | .splitOff a => some (.splitOff a)
-  | .drain a b sc f => some (.drain (.incl a) (.excl b) (sc.map sideOf) (finOf f))
-  | .intoIter sc _ => some (.intoIter (sc.map sideOf))
+  | .drain a b sc f => some (.drain (.incl a) (.excl b) (sc.flatMap sidesOf) (finOf f))
+  | .intoIter sc _ => some (.intoIter (sc.flatMap sidesOf))
   | .roundtrip => some (.from .other 0 (absL s))
   | .reserve _ | .shrinkFit | .dropVec | .fromIter _ _ => none
 
